@@ -56,6 +56,10 @@ CHECKS = {
    technique="exhaustive decoration enumeration: every statement boundary of every skeleton program (statement families, nesting chains <= 2/3) x every decoration of a 32-entry alphabet (trailing / own-line comments with 10 texts, blank-line runs, mixed sequences), singly and pairwise; independent tokenizer compares comment lists, anchors and blank-line separation of source and pretty output; compact output compared with the comment-free program",
    text="Every boundary of every enumerated skeleton receives every decoration of the alphabet (and every pair of boundaries a reduced set); the real lexer, parser and printers run on each decorated program and an independent tokenizer reads comments back from the pretty output: same texts, same order, once each, in front of the same token, blank lines between siblings kept, compact output unchanged and comment-free, comment content neutral. Trivia is attached to whichever token follows, so each boundary kind (first in block, between siblings, before a closing brace, before end of input, after an opening brace) x each owner node type is a separate code path; the enumeration visits all of them.",
    note="trusted: R-tok comment scan (xmc/ref/rtok.go); comments compared modulo trailing white space; one-statement-per-line layouts"),
+ "C06": dict(cat="model_checking", sec="4 C06",
+   technique="exhaustive exploration of the writer's deferred-whitespace machine through the program universe: all token sequences <= 4/5, statement families x all layouts with <= 1/2 deviations (comments, blank lines, line breaks, dropped semicolons in every gap), multi-line literal and literal/comment interplay families, expression chains; x 21 option sets; re-parse, idempotence, indent-only and semicolon-only difference oracles",
+   text="Every program/layout of the bounded universes is formatted by the real printer under the option sets of the tier; each output is re-parsed and compared (via its compact form and tree shape) with the source's tree, formatted again and compared byte for byte; the outputs for all ten indent units must agree after stripping leading white space, and the with/without-semicolon outputs after deleting statement-terminating semicolons located by an independent tokenizer. The pending-buffer machine misbehaves only for particular sequences of newline/indent/space/comment requests, which particular statement/comment adjacencies produce; the layout enumeration with deviations in every gap produces all such adjacencies up to the bound.",
+   note="trusted: xjs parser as reader of the formatted text (its conformance is C02's subject), R-tok for locating terminators, the literal-aware line scanner in props/c06.go"),
 }
 NA_REASON = {}
 def main():
